@@ -419,3 +419,200 @@ Proof.
     + exfalso. destruct Hcase as [[H _]|[H _]]; discriminate.
     + exact HL0.
 Qed.
+
+(* ---- the system-level invariant and its preservation by step_tree ---- *)
+Definition SysInv (s : sys) : Prop := c11_inv s /\ TreeInv (s_db s).
+
+Lemma step_strict_step s o s' : step_strict s o = Ok s' -> step s o = Ok s'.
+Proof.
+  unfold step_strict. destruct o; auto.
+  - destruct (negb (id =? 0) && existsb (N.eqb id) (all_ids (l_levels (s_db s)))); [discriminate|auto].
+  - cbn zeta. destruct (negb (pick_check (l_levels (s_db s)) c =? 0)); auto.
+    destruct (negb (layout_ok _ _ _)); [discriminate|]. destruct (negb (order_ok _ _)); [discriminate|auto].
+Qed.
+
+Lemma step_tree_strict s o s' : step_tree s o = Ok s' -> step_strict s o = Ok s'.
+Proof.
+  unfold step_tree. destruct o; auto.
+  - destruct (l_mt (s_db s)); auto. destruct (existsb (N.eqb id) (all_ids (l_levels (s_db s)))); [discriminate|auto].
+  - cbn zeta. destruct (negb (pick_check (l_levels (s_db s)) c =? 0)); auto.
+    destruct (negb (c_next c <? length (l_levels (s_db s)))%nat); [discriminate|].
+    destruct (negb (compact_extra_check (l_levels (s_db s)) c =? 0)); [discriminate|auto].
+Qed.
+
+Lemma step_tree_step s o s' : step_tree s o = Ok s' -> step s o = Ok s'.
+Proof. intros H. now apply step_strict_step, step_tree_strict. Qed.
+
+(* everything a successful Compact label has passed *)
+Lemma compact_checks s c out s' :
+  step_tree s (Compact c out) = Ok s' ->
+  let ls := l_levels (s_db s) in
+  pick_check ls c = 0 /\ (c_next c < length ls)%nat /\ compact_extra_check ls c = 0 /\
+  layout_ok ls c (compaction_output ls c) = true /\
+  order_ok (c_order c)
+    (let nl := drop_tables (c_bot c) (nth (c_next c) ls []) ++ InstallProofs.new_tables ls c in
+     if (c_this c =? c_next c)%nat then drop_tables (c_top c) nl else nl) = true /\
+  (sorted_by_smallest (nth (c_next c) (apply_compaction ls c) []) = true \/
+   (length (nth (c_next c) (apply_compaction ls c) []) <= 1)%nat) /\
+  s_db s' = InstallProofs.tree_after (s_db s) c.
+Proof.
+  cbn zeta. intros H. pose proof (step_tree_step _ _ _ H) as Hs. pose proof (step_tree_strict _ _ _ H) as Hst.
+  unfold step_tree in H. cbn zeta in H. unfold step_strict in Hst. cbn zeta in Hst. cbn [step] in Hs.
+  destruct (negb (pick_check (l_levels (s_db s)) c =? 0)) eqn:P; [discriminate|].
+  apply negb_false_iff, N.eqb_eq in P.
+  destruct (negb (c_next c <? length (l_levels (s_db s)))%nat) eqn:Q; [discriminate|].
+  apply negb_false_iff, Nat.ltb_lt in Q.
+  destruct (negb (compact_extra_check (l_levels (s_db s)) c =? 0)) eqn:X; [discriminate|].
+  apply negb_false_iff, N.eqb_eq in X.
+  destruct (negb (layout_ok _ _ _)) eqn:L; [discriminate|]. apply negb_false_iff in L.
+  destruct (negb (order_ok _ _)) eqn:O; [discriminate|]. apply negb_false_iff in O.
+  destruct (entries_eqb (compaction_output (l_levels (s_db s)) c) out); [|discriminate].
+  match type of Hs with (if ?b then _ else _) = _ => destruct b eqn:Sb; [|discriminate] end.
+  inversion Hs; subst s'. repeat split; auto.
+  apply orb_true_iff in Sb. destruct Sb as [Sb|Sb]; [now left|right]. now apply Nat.leb_le in Sb.
+Qed.
+
+Lemma txn_commit_db2 s t x cts r ts s' :
+  s_managed s = false -> txn_commit s t x cts = (r, ts, s') ->
+  s_db s' = s_db s \/ s_db s' = apply_entries (s_db s) (commit_entries x (s_next s)).
+Proof.
+  intros Hm. unfold txn_commit. destruct (x_pend x); [intros [= <- <- <-]; auto|].
+  destruct (x_done x); [intros [= <- <- <-]; auto|].
+  destruct (s_detect s && has_conflict s x); intros [= <- <- <-]; auto. right. cbn [s_db]. now rewrite Hm.
+Qed.
+
+Lemma op_plain_unversioned o : op_plain o -> op_unversioned o.
+Proof. destruct o; cbn; auto. Qed.
+
+Theorem step_tree_preserves s o s' :
+  SysInv s -> op_plain o -> step_tree s o = Ok s' -> SysInv s'.
+Proof.
+  intros [Hc HT] Ho H. pose proof (step_tree_step _ _ _ H) as Hs.
+  split; [eapply step_preserves_c11; eauto; now apply op_plain_unversioned|].
+  pose proof Hc as (Hm & Hb & Htx).
+  destruct o; cbn [step] in Hs.
+  - destruct (s_managed s || (rts =? s_next s - 1)); [|discriminate]. inversion Hs; subst. exact HT.
+  - destruct (lookup (s_txns s) t); [|discriminate]. destruct (txn_modify t0 e) as [r' x'].
+    destruct (r' =? r); [|discriminate]. inversion Hs; subst. exact HT.
+  - destruct (lookup (s_txns s) t); [|discriminate]. destruct (txn_get s t0 k) as [r' x'].
+    destruct (getres_eqb r' r); [|discriminate]. inversion Hs; subst. exact HT.
+  - destruct (lookup (s_txns s) t); [|discriminate].
+    destruct (entries_eqb (txn_iterate s t0 o seek) items); [|discriminate]. inversion Hs; subst. exact HT.
+  - (* Commit *)
+    destruct (lookup (s_txns s) t) as [x|] eqn:L; [|discriminate].
+    destruct (txn_commit s t x cts) as [[r' ts] s1] eqn:C.
+    destruct ((r' =? r) && (negb (r' =? 0) || (ts =? 0) || (ts =? cts))); [|discriminate]. inversion Hs; subst s1.
+    destruct (txn_commit_db2 _ _ _ _ _ _ _ Hm C) as [E|E]; rewrite E; auto.
+    apply (commit_preserves_tree (s_db s) _ (s_next s)); auto.
+    + intros e He. eapply commit_entries_ver; eauto.
+      eapply (lookup_Forall _ txn_unver); [|exact Htx|exact L]. auto.
+  - destruct (lookup (s_txns s) t); [|discriminate]. inversion Hs; subst. exact HT.
+  - (* Flush *)
+    inversion Hs; subst s'. cbn [set_db s_db]. apply flush_preserves_tree; auto.
+    intros Hmt Hin. unfold step_tree in H. destruct (l_mt (s_db s)); [congruence|].
+    assert (E: existsb (N.eqb id) (all_ids (l_levels (s_db s))) = true).
+    { apply existsb_exists. exists id. split; auto. apply N.eqb_refl. }
+    rewrite E in H. discriminate.
+  - (* Compact *)
+    destruct (compact_checks _ _ _ _ H) as (P & Q & X & L & O & Sb & E). rewrite E.
+    apply compact_preserves_tree; auto.
+  - inversion Hs; subst. exact HT.
+  - inversion Hs; subst. exact HT.
+  - destruct (dump_eqb (l_levels (s_db s)) levels); [|discriminate]. inversion Hs; subst. exact HT.
+  - destruct (max_version (s_db s) =? v); [|discriminate]. inversion Hs; subst. exact HT.
+Qed.
+
+(* ---- reads ---- *)
+Lemma compaction_inputs_sorted ls c :
+  levels_ok ls -> (c_next c = O -> c_bot c = []) -> Forall sorted (compaction_inputs ls c).
+Proof.
+  intros Hok Hb. unfold compaction_inputs. apply Forall_app. split.
+  - assert (HT: Forall sorted (map t_ents (pick_tables (c_top c) (nth (c_this c) ls [])))).
+    { apply Forall_forall. intros s Hs. apply in_map_iff in Hs. destruct Hs as (t & <- & Ht).
+      unfold pick_tables in Ht. apply filter_In in Ht. destruct Ht as [Ht _].
+      pose proof (lvl_ok_tbl _ _ (Hok (c_this c))) as HF. rewrite Forall_forall in HF. apply (HF _ Ht). }
+    destruct (c_this c); auto. rewrite Forall_forall in *. intros s Hs. apply HT.
+    apply in_map_iff in Hs. destruct Hs as (t & <- & Ht). apply in_map. now apply in_rev.
+  - constructor; [|constructor]. destruct (c_next c) as [|n] eqn:En.
+    + rewrite (Hb eq_refl). rewrite pick_tables_nil. constructor.
+    + pose proof (Hok (S n)) as Hl. cbn [lvl_ok] in Hl.
+      assert (Hs: subseq (filter (keep_table (c_drop c)) (pick_tables (c_bot c) (nth (S n) ls []))) (nth (S n) ls [])).
+      { eapply subseq_trans; [apply subseq_filter|]. unfold pick_tables. apply subseq_filter. }
+      destruct (level_ok_subseq _ _ Hs Hl) as (A & B & _). now apply level_concat_sorted.
+Qed.
+
+Lemma pick_wf_of ls c :
+  pick_check ls c = 0 -> (c_next c < length ls)%nat -> InstallProofs.pick_wf ls c.
+Proof.
+  intros Hp Hn. destruct (pick_facts2 _ _ Hp) as (Etop & Ebot & _ & _).
+  split; [now apply pick_this_lt|]. split; [exact Hn|]. split.
+  - intros i Hi. rewrite <- Etop in Hi. unfold ids_of in Hi. apply in_map_iff in Hi. destruct Hi as (t & <- & Ht).
+    apply in_top_of in Ht. apply in_map. tauto.
+  - intros i Hi. rewrite <- Ebot in Hi. unfold ids_of in Hi. apply in_map_iff in Hi. destruct Hi as (t & <- & Ht).
+    apply in_bot_of in Ht. apply in_map. tauto.
+Qed.
+
+(* C12, one compaction label: every Get at ts >= its discard timestamp is unchanged (also at
+   any later wall-clock time), and the invariant is kept *)
+Theorem compaction_step_preserves_reads s c out s' :
+  SysInv s -> c_drop c = [] -> step_tree s (Compact c out) = Ok s' ->
+  forall k ts now', c_discard c <= ts -> c_now c <= now' ->
+  vis_of now' (db_get (s_db s') k ts) = vis_of now' (db_get (s_db s) k ts).
+Proof.
+  intros HI Hd H k ts now' Hts Hnow. pose proof HI as [Hc HT].
+  assert (HI': SysInv s') by exact (step_tree_preserves s (Compact c out) s' HI Hd H).
+  destruct (compact_checks _ _ _ _ H) as (P & Q & X & L & O & Sb & E).
+  destruct HI' as [_ HT']. rewrite E in *.
+  pose proof HT as (Himm & Hne & Hdb & Hnd & Hkv & HM & HL0).
+  pose proof HT' as (_ & _ & Hdb' & _).
+  destruct (layout_ok_facts _ _ _ L) as [Hfresh Hsum].
+  apply InstallProofs.installed_compaction_preserves_get; auto.
+  - now apply db_ok_lsm_wf.
+  - now apply db_ok_lsm_wf.
+  - now apply pick_wf_of.
+  - destruct Hdb as (_ & _ & Hlv). apply compaction_inputs_sorted; auto. exact (pick_next0 _ c P).
+  - intros e He _ Hov o Ho Ek. exact (R_holds (s_db s) c HT P Hd e He Hov o Ho Ek).
+Qed.
+
+Theorem flush_step_preserves_reads s id s' :
+  SysInv s -> step_tree s (Flush id) = Ok s' ->
+  forall k ts, db_get (s_db s') k ts = db_get (s_db s) k ts.
+Proof.
+  intros HI H k ts. assert (HI': SysInv s') by exact (step_tree_preserves s (Flush id) s' HI I H).
+  pose proof (step_tree_step _ _ _ H) as Hs. cbn [step] in Hs. inversion Hs; subst s'. cbn [set_db s_db] in *.
+  destruct HI as [_ (Himm & Hne & Hdb & Hnd & Hkv & _)]. destruct HI' as [_ (_ & _ & Hdb' & _)].
+  apply C12Proofs.flush_preserves_get; auto; now apply db_ok_lsm_wf.
+Qed.
+
+(* ---- all histories ---- *)
+Lemma nth_repeat_nil {A} i n : nth i (repeat (@nil A) n) [] = [].
+Proof.
+  destruct (nth_in_or_default i (repeat (@nil A) n) []) as [H|H]; auto. now apply repeat_spec in H.
+Qed.
+
+Lemma concat_repeat_nil {A} n : concat (repeat (@nil A) n) = [].
+Proof. induction n; cbn; auto. Qed.
+
+Lemma init_sys_inv detect nkeep nlevels next :
+  (0 < nlevels)%nat -> SysInv (init_sys false detect nkeep nlevels next).
+Proof.
+  intros Hn. split; [apply init_c11|]. unfold init_sys, TreeInv. cbn [s_db l_mt l_imm l_levels].
+  split; [reflexivity|]. split; [destruct nlevels; [lia|discriminate]|].
+  split; [apply (init_db_ok false detect nkeep nlevels next)|].
+  split; [unfold all_ids; rewrite concat_repeat_nil; constructor|].
+  split.
+  { intros a b Ha. apply C12Proofs.all_entries_in in Ha. cbn [l_mt l_imm l_levels] in Ha.
+    destruct Ha as [[]|[(s0 & [] & _)|(l & t & Hl & Ht & _)]]. apply repeat_spec in Hl. subst l. destruct Ht. }
+  split; [split|].
+  - intros i a b [].
+  - intros i j _ a b Ha. cbn [l_levels] in Ha. rewrite nth_repeat_nil in Ha. destruct Ha.
+  - rewrite nth_repeat_nil. exists [], []. repeat split; auto; [constructor|intros a b []].
+Qed.
+
+Theorem exec_tree_inv ops s i :
+  Forall op_plain ops -> SysInv s -> SysInv (snd (exec_tree s ops i)).
+Proof.
+  revert s i. induction ops as [|o ops IH]; intros s i HF HI; cbn [exec_tree snd]; auto.
+  inversion HF; subst. destruct (step_tree s o) as [s1|code] eqn:S; cbn [snd]; auto.
+  apply IH; auto. eapply step_tree_preserves; eauto.
+Qed.
